@@ -12,6 +12,7 @@ import (
 	"fmt"
 	"go/constant"
 	"go/token"
+	"go/types"
 	"strings"
 
 	"golang.org/x/tools/go/ssa"
@@ -276,7 +277,25 @@ func (e *sxEnv) sprintf(call *ssa.Call) ([]sxPiece, bool) {
 		ai++
 		i = j
 		flush()
-		if f := valueFieldName(a); f != "?" {
+		// %s / %v of a value whose type has a String method prints what that method returns
+		if verb == "%s" || verb == "%v" {
+			if m := stringMethodOf(a.Type()); m != nil {
+				if r := singleResult(m, 0); r != nil && len(m.Params) == 1 {
+					ne := &sxEnv{sub: map[ssa.Value]ssa.Value{}, depth: e.depth + 1}
+					for k, x := range e.sub {
+						ne.sub[k] = x
+					}
+					ne.sub[m.Params[0]] = a
+					ps, ok := ne.str(r)
+					if !ok {
+						return nil, false
+					}
+					out = append(out, ps...)
+					continue
+				}
+			}
+		}
+		if f := e.fieldNameOf(a); f != "?" {
 			out = append(out, sxPiece{kind: "verb", text: verb, field: f})
 			continue
 		}
@@ -340,4 +359,41 @@ func textReturned(fn *ssa.Function, idx int, skip string) ([]sxPiece, bool) {
 		n++
 	}
 	return out, n > 0
+}
+
+// fieldNameOf: valueFieldName through the environment's bindings and value-preserving conversions.
+func (e *sxEnv) fieldNameOf(v ssa.Value) string {
+	for i := 0; i < 8; i++ {
+		v = e.val(v)
+		switch x := v.(type) {
+		case *ssa.Convert:
+			v = x.X
+			continue
+		case *ssa.ChangeType:
+			v = x.X
+			continue
+		}
+		break
+	}
+	return valueFieldName(v)
+}
+
+// stringMethodOf: the module's String() string method of a named type, if it has one.
+func stringMethodOf(t types.Type) *ssa.Function {
+	n, ok := t.(*types.Named)
+	if !ok || theProg == nil || n.Obj().Pkg() == nil || !inScope(n.Obj().Pkg().Path()) {
+		return nil
+	}
+	for i := 0; i < n.NumMethods(); i++ {
+		m := n.Method(i)
+		if m.Name() == "String" {
+			sig := m.Type().(*types.Signature)
+			if sig.Params().Len() == 0 && sig.Results().Len() == 1 {
+				if pkg := theProg.SSAPkg(n.Obj().Pkg().Path()); pkg != nil {
+					return pkg.Prog.FuncValue(m)
+				}
+			}
+		}
+	}
+	return nil
 }
